@@ -17,6 +17,7 @@ from bibtexparser.middlewares.enclosing import (RemoveEnclosingMiddleware, AddEn
                                                 ENTRY_POTENTIALLY_INT_FIELDS)
 from bibtexparser.model import Entry, Field, String
 from bibtexparser.library import Library
+import bibtexparser
 from bibtexparser.splitter import Splitter
 
 SIGMA = '{}"# x1\\_\n'
@@ -70,7 +71,11 @@ def drv_reparse(v, default):
     add.transform(Library([e]))
     enc = e.fields[0].value
     lib = Splitter("@a{k, f = " + enc + "}").split()
-    return enc, lib.blocks
+    # ... "with the same content": through the default parse stack (a macro named like a value token is defined, so a
+    # value that was written without its enclosing would be taken for a reference), the field holds v again
+    full = bibtexparser.parse_string("@string{x = {S}}\n@a{k, f = " + enc + "}")
+    content = [f.value for b in full.blocks if isinstance(b, Entry) for f in b.fields]
+    return enc, lib.blocks, content
 
 
 # ------------------------------------------------------------------ oracle (from the statement)
@@ -178,13 +183,14 @@ def replay_reparse(v, default):
         return {"input": [v, default], "observed": f"raised {type(ex).__name__}: {ex}", "expected": "one field"}
     if r is None:
         return None
-    enc, blocks = r
+    enc, blocks, content = r
     ok = (len(blocks) == 1 and isinstance(blocks[0], Entry) and len(blocks[0].fields) == 1
-          and blocks[0].fields[0].key == "f" and blocks[0].fields[0].value == enc and blocks[0].key == "k")
+          and blocks[0].fields[0].key == "f" and blocks[0].fields[0].value == enc and blocks[0].key == "k" and content == [v])
     if ok:
         return None
     return {"input": [v, default], "observed": {"document": "@a{k, f = " + enc + "}", "blocks": [type(b).__name__ for b in blocks],
-            "fields": [(f.key, f.value) for b in blocks if isinstance(b, Entry) for f in b.fields]}, "expected": f"one entry with f = {enc}"}
+            "fields": [(f.key, f.value) for b in blocks if isinstance(b, Entry) for f in b.fields], "content after the default parse stack": content},
+            "expected": f"one entry with f = {enc}, content {v!r}"}
 
 
 def sym_value(eng, L):
@@ -294,11 +300,11 @@ def task_reparse(L, default, prefix=""):
             continue
         if W.result is None:
             continue
-        enc, blocks = W.result
-        ok = len(blocks) == 1 and isinstance(blocks[0], Entry) and len(blocks[0].fields) == 1
+        enc, blocks, content = W.result
+        ok = len(blocks) == 1 and isinstance(blocks[0], Entry) and len(blocks[0].fields) == 1 and len(content) == 1
         if ok:
             f = blocks[0].fields[0]
-            ok = b_all([E(f.key, "f"), E(f.value, enc), E(blocks[0].key, "k")])
+            ok = b_all([E(f.key, "f"), E(f.value, enc), E(blocks[0].key, "k"), is_strlike(content[0]) and E(content[0], v)])
         rec.require(W, b_not(ok), "reparse-one-field", rp)
         rec.witness("balanced-value-reparsed", W)
     return rec.result(worlds=len(worlds))
